@@ -15,8 +15,18 @@ import (
 // ErrParse errors are returned by the parser.
 var ErrParse = errors.New("parser")
 
-// Parse parses path.
-func Parse(path string) (*ast.AST, error) {
+// Parse parses path. Returns an [ErrParse] error for any input that is not a
+// valid path, including input for which node construction panics (numeric
+// literals out of range, for example).
+//
+//nolint:nonamedreturns
+func Parse(path string) (tree *ast.AST, err error) {
+	defer func() {
+		if r := recover(); r != nil {
+			tree, err = nil, fmt.Errorf("%w: %v", ErrParse, r)
+		}
+	}()
+
 	lexer := newLexer(path)
 	_ = pathParse(lexer)
 
